@@ -69,9 +69,50 @@ SCALARS = {
     ("str", "a"): "a",
     ("str", ""): "",
     ("str", "ab"): "ab",
+    ("str", "b"): "b",
     ("NoneType", "None"): None,
     ("Color", "RED"): Color.RED,
     ("Color", "GREEN"): Color.GREEN,
     ("A", "a"): _A,
     ("B", "b"): _B,
 }
+
+
+# --------------------------------------------------------------------------- TypedDict classes for the TD terms
+# (functional syntax, typing_extensions: NotRequired / ReadOnly); one class per term, named after its entries,
+# published as module attributes so that annotations can say `HU.<name>`
+import typing_extensions as _te
+
+_TD_TYPES = {"int": int, "optint": typing.Optional[int], "str": str}
+TD_CLASSES: dict[str, type] = {}
+
+
+def td_name(items: list[tuple[str, bool, bool, str]]) -> str:
+    """items: (key, required, readonly, type name)"""
+    return "TD_" + "_".join(f"{k}{'R' if req else 'N'}{'o' if ro else 'w'}{tn}" for k, req, ro, tn in items)
+
+
+def td_class(items: list[tuple[str, bool, bool, str]]) -> type:
+    name = td_name(items)
+    cls = TD_CLASSES.get(name)
+    if cls is None:
+        fields = {}
+        for k, req, ro, tn in items:
+            ty = _TD_TYPES[tn]
+            if ro:
+                ty = _te.ReadOnly[ty]
+            if not req:
+                ty = _te.NotRequired[ty]
+            fields[k] = ty
+        cls = _te.TypedDict(name, fields)
+        cls.__module__ = __name__
+        TD_CLASSES[name] = cls
+        globals()[name] = cls
+    return cls
+
+
+for _r in (True, False):
+    for _ro in (True, False):
+        for _ty in ("int", "optint"):
+            for _bs in ([], [("b", True, False, "str")], [("b", False, False, "str")]):
+                td_class([("a", _r, _ro, _ty)] + _bs)
